@@ -1,9 +1,11 @@
 package c10
 
 import (
+	"regexp"
 	"sort"
 	"strconv"
 	"strings"
+	"sync"
 
 	"verif/internal/cat"
 	"verif/internal/vals"
@@ -244,6 +246,31 @@ func local() []cat.Program {
 			},
 			Data: map[string]vals.V{"who": s("xcrWHO")}},
 
+		// wide scopes: an include tag with 14 props (plus the component's front-matter keys in the
+		// same scope), a component with 10 front-matter keys, and a loop body whose <template>
+		// sets 10 names into the iteration scope - scopes with many names that are popped and
+		// handed back to the process-wide pool. All values are recognisable (…WHO).
+		{Name: "x-wide-include", Canary: "xwpWHO", Feat: []string{"wide-scope", "include", "front-matter", "template-vars"},
+			Files: map[string]string{
+				"page.vuego": `<form><p>{{ who }}</p><ul><li v-for="r in rows"><template t1="t1-xwtWHO" t2="b" t3="c" t4="d" t5="e" t6="f" t7="g" t8="h" t9="i" :t10="tok"><b>{{ t1 }} {{ t10 }} {{ r }}</b></template></li></ul>` +
+					`<template include="components/xwi-fm.vuego" :wsecret="tok" wcls="fm-xwfWHO"></template>` +
+					`<template include="components/xwi-field.vuego" id="f-token-xwiWHO" name="token-xwnWHO" kind="password-xwkWHO" :wlabel="lab" wcls="wide-xwcWHO" wplaceholder="paste-xwhWHO" whint="private-xwvWHO" wauto="off" wsize="40" wtab="3" wextra="x" wmore="y" :wsecret="tok" :wowner="own"></template></form>` + end,
+				"components/xwi-field.vuego": "---\nwfm1: one-xw1WHO\nwfm2: two\n---\n" + `<label class="{{ wcls }}" for="{{ id }}">{{ wlabel }} {{ wfm1 }}</label>`,
+				"components/xwi-fm.vuego":    "---\nk1: k1-xk1WHO\nk2: b\nk3: c\nk4: d\nk5: e\nk6: f\nk7: g\nk8: h\nk9: i\nk10: j\n---\n" + `<span class="{{ wcls }}">{{ k1 }} {{ k10 }}</span>`,
+			},
+			Data: map[string]vals.V{"who": s("xwpWHO"), "tok": s("S3CR3T-xwsWHO"), "own": s("alice-xwoWHO"), "lab": s("API-xwlWHO"), "rows": strs("w1", "w2")}},
+		// readers: open pooled scopes (nested loops: two at once; a scoped and a default slot) and
+		// read names that are undefined for them but are names of the wide scopes above
+		{Name: "x-reader-nested", Canary: "xrnWHO", Feat: []string{"leak-probe", "wide-scope-reader", "v-for", "slot"},
+			Files: map[string]string{
+				"page.vuego": `<ul><li v-for="g in groups" :data-s="wsecret" :data-c="wcls"><b v-for="x in g.items" :title="wowner">{{ g.name }}/{{ x }}|{{ wsecret }}|{{ wowner }}|{{ wlabel }}|{{ wcls }}|{{ whint }}|{{ id }}|{{ name }}|{{ kind }}|{{ wfm1 }}|{{ k1 }}|{{ k10 }}|{{ t1 }}|{{ t10 }}</b><i v-if="wsecret">leak</i><i v-if="k1">leak-k</i><i v-if="t1">leak-t</i></li></ul>` +
+					`<p v-for="y in flat">{{ y }}|{{ wsecret }}|{{ wowner }}|{{ wcls }}|{{ id }}|{{ k1 }}|{{ t1 }}</p>` +
+					`<template include="components/xrn-box.vuego"><template v-slot:head="sp"><h6>{{ sp.x }}|{{ wsecret }}|{{ wowner }}|{{ k1 }}</h6></template><p>{{ who }}|{{ wsecret }}|{{ wlabel }}|{{ t10 }}|{{ id }}</p></template>` + end,
+				"components/xrn-box.vuego": `<div><slot name="head" :x="who">h</slot><slot>d</slot><em v-for="z in flat">{{ z }}{{ wsecret }}{{ wcls }}{{ k1 }}</em></div>`,
+			},
+			Data: map[string]vals.V{"who": s("xrnWHO"), "flat": strs("f1", "f2"),
+				"groups": anys(m(map[string]vals.V{"name": s("g1"), "items": strs("a", "b")}), m(map[string]vals.V{"name": s("g2"), "items": strs("c")}))}},
+
 		// retype twins: DIFFERENT files with the SAME template text (so the same expression texts)
 		// whose data gives the same names differently typed values; on the shared engine they meet
 		// in both orders. Only expressions that are valid for every typing are used here.
@@ -327,9 +354,31 @@ func isHazard(p cat.Program) bool {
 	return hasFeat(p, hazard) || hasFeat(p, "multi-bound") || hasFeat(p, "style") || hasFeat(p, "class")
 }
 
-// canaries returns the values that only program p's data contains: the declared canary plus
-// every string leaf of the data description that ends in "WHO".
+var whoToken = regexp.MustCompile(`[A-Za-z0-9_-]+WHO\b`)
+
+// canaries returns the values that only program p was given: the declared canary, every string
+// leaf of the data description that ends in "WHO", and every …WHO literal in its template files.
 func canaries(p cat.Program) []string {
+	// registered programs never change: computed once
+	if i, ok := namedIndex[p.Name]; ok && len(named[i].Files) == len(p.Files) && named[i].Files["page.vuego"] == p.Files["page.vuego"] {
+		canaryMu.Lock()
+		defer canaryMu.Unlock()
+		if out, ok := canaryTab[p.Name]; ok {
+			return out
+		}
+		out := canariesOf(p)
+		canaryTab[p.Name] = out
+		return out
+	}
+	return canariesOf(p)
+}
+
+var (
+	canaryMu  sync.Mutex
+	canaryTab = map[string][]string{}
+)
+
+func canariesOf(p cat.Program) []string {
 	set := map[string]bool{}
 	if p.Canary != "" {
 		set[p.Canary] = true
@@ -348,6 +397,12 @@ func canaries(p cat.Program) []string {
 	}
 	for _, v := range p.Data {
 		walk(v)
+	}
+	// recognisable literals written in the template files themselves
+	for _, src := range p.Files {
+		for _, tok := range whoToken.FindAllString(src, -1) {
+			set[tok] = true
+		}
 	}
 	out := make([]string, 0, len(set))
 	for k := range set {
